@@ -11,10 +11,28 @@ MISSED_FIRST = {
     "C18-m3": "missed: a lost update inside one statement cannot be produced by a statement-granular scheduler; caught after the threaded templates were also run in the -race binary (engine c18thr); the C11 race run caught it from the start",
     "C02-m3": "missed: no corpus document had a branch_length / confidence on the root clade; caught after the corpus was extended with legal-but-unusual documents",
     "C17-m1": "missed: proposals were only applied inside the callback; caught after the collected-then-applied mode was added",
+    # second wave
+    "C02-n2": "missed: no mutation produced extreme numbers; caught (as a process crash attributed to its case) after the 'extreme number' mutation kind was added",
+    "C02-n3": "missed: no corpus document had a JSON null inside a children array; caught after the corpus got documents with nulls, empty elements and wrong value types",
+    "C03-n1": "missed: an applied NNI was never kept across other steps; caught after the steps 'nnihold' / 'nniundoheld' were added (the kept object is only used across steps that keep nodes and branches in place)",
+    "C08-n1": "missed: all generated taxa were named t0, t1, ...; caught after naming schemes mixing integers, integer+letter and prefix-heavy names were added",
+    "C08-n2": "missed: a foreign taxon was always called FOREIGN; caught after the adversarial variant (two names exchanged for two others with the same sorted concatenation) was added",
+    "C09-n2": "missed: rooted presentations always had the subtree below the chosen branch as first root child; caught after the order of the two root children was randomised",
+    "C10-n3": "missed: see C08-n1 (same change found independently); caught after the naming schemes were added",
+    "C13-n1": "missed: at most 6 trees per list; caught after lists of 10..13 trees were added",
+    "C15-n2": "missed: the graft step always re-indexed first, which heals the copied index; caught after edits of a freshly copied, already indexed tree were allowed to run without re-indexing",
+    "C17-n1": "missed: lengths were not compared after Apply; caught after 'every other branch keeps its length' was added to the per-proposal oracle",
+    "C17-n2": "missed: no enumeration was ever started inside the callback; caught after the nested-enumeration mode was added (concurrent enumerations are outside the property's quantifier and are not simulated)",
+    "C17-n3": "missed: the command was not run; caught after `gotree nni` on 1..3 trees was added to the check",
+    "C11-n1": "missed at the quick budget of the first version (640 race runs; the condition needs two deep branches sharing a moved taxon): caught after the rogue-taxon relation, larger trees for --moved-taxa and a quick race budget of 16 x 1200 runs; the thorough tier caught it before",
+    "C11-n2": "not decided by the first version: the worker hung for real (a goroutine blocked in Mutex.Lock is invisible to synctest) until the wall-clock watchdog gave exit 2; caught as a simulated deadlock after lock waits were modelled by the scheduler (DESIGN 12.2) and streams with several faulty trees were added",
+    "C11-n3": "only evaluated after the second strengthening round; the first version had no empty streams and no pre-emption inside Compare's launch loop and would have missed it",
+    "C18-n1": "found by the first version but reported as exit 2: the two cross-process comparisons were separate classes and the replay, having another random seed, landed in the other class; now one class, replay reproduces",
+    "C18-n3": "only evaluated after the second strengthening round (interfering command between two runs of a template); the first version would have missed it",
 }
 for spec in sys.argv[3:]:
     prop, m = spec.split(":")
-    src = os.path.join(outroot, prop + "_out", m)
+    src = os.path.join(outroot, prop + os.environ.get("OUTSUFFIX", "_out"), m)
     sid = "%s-%s%s" % (prop, wave, m)
     dst = os.path.join("/verif/seeded", sid)
     os.makedirs(dst, exist_ok=True)
@@ -42,7 +60,7 @@ for spec in sys.argv[3:]:
                                    "pre-existing flaky tests/TestEdgeNeighbor), demonstration with the change (must fail), demonstration without it (must pass)", "result": confirm},
         "detection": {"how": "tools/evalseed.sh <prop> <dir> quick: the registered quick check of the property run against a scratch worktree of /repo carrying the patch (VERIF_REPO), "
                               "VERIF_SEED=1; the violation is only printed after its replay file reproduced it in a fresh process", "result": det,
-                      "first_version_of_the_check": MISSED_FIRST.get("%s-%s" % (prop, m) if wave == "" else sid, "caught")},
+                      "first_version_of_the_check": MISSED_FIRST.get("%s-%s" % (prop, m), "caught")},
     }
     json.dump(meta, open(os.path.join(dst, "meta.json"), "w"), indent=1)
     print(sid, confirm, {k: (v["violation_reported"], len(v["classes"])) for k, v in det.items()})
